@@ -148,6 +148,19 @@ def r3(chk, ctx, sp):
             chk.ob("C13.R3", "tokeniser: `%s` cannot fail the unpacking" % short(c, 50), ok, "",
                    key="%s | tuple-unpacking of `%s` may raise ValueError (no '(' in the expression)" % (eif.qname, norm(c.value)), where=eif.where(c),
                    message="an expression without parentheses (\"States.UUID\") raises ValueError instead of States.IntrinsicFailure")
+    ints = [c for c in body_nodes(eif) if isinstance(c, ast.Call) and callname(c) == "int" and norm(c.args[0]) == "arg"]
+    flts = [c for c in body_nodes(eif) if isinstance(c, ast.Call) and callname(c) == "float" and norm(c.args[0]) == "arg"]
+    ok = len(ints) == 1 and len(flts) == 1
+    if ok:
+        # float(arg) is the fallback inside the ValueError handler of int(arg); both unconditional on the text of arg
+        ti = [t for t in ast.walk(eif.node) if isinstance(t, ast.Try) and any(ints[0] is x for s in t.body for x in ast.walk(s))]
+        ok = len(ti) >= 1 and any(flts[0] is x for h in ti[-1].handlers if "ValueError" in norm(h.type) for s in h.body for x in ast.walk(s))
+        for c in ints + flts:
+            par = sp.parent(c)
+            ok = ok and not isinstance(par, ast.IfExp)
+    chk.ob("C13.R3", "numeric arguments: int(arg), falling back to float(arg) on ValueError, else IntrinsicFailure", ok, "",
+           key="%s | numeric argument parsing is not int-then-float" % eif.qname, where=eif.where(),
+           message="every JSON number spelling (1e3, 25E-1, 1e-05) must be accepted: choosing the parser by looking for '.' rejects exponent forms")
     ev = sp.funcs["evaluate_payload_template.evaluate"]
     for c in ast.walk(ev.node):
         if isinstance(c, ast.Call) and isinstance(c.func, ast.Attribute) and c.func.attr == "startswith" and norm(c.func.value) == "v":
